@@ -98,6 +98,18 @@ func c20Ranges(name string, lvl int, strs []string) []string {
 		}
 	}
 	sel := stride(bounds, 25)
+	seenPrefix := map[string]bool{}
+	for _, i := range bounds {
+		// one bound per distinct spelled prefix (v, =, release-, rel-, epochs ...)
+		j := 0
+		for j < len(strs[i]) && (strs[i][j] < '0' || strs[i][j] > '9') {
+			j++
+		}
+		if pre := strs[i][:j]; pre != "" && !seenPrefix[pre] && len(seenPrefix) < 8 {
+			seenPrefix[pre] = true
+			sel = append(sel, i)
+		}
+	}
 	for _, i := range bounds {
 		if bigComponent.MatchString(strs[i]) || strs[i] == "1.0.1.10" || strs[i] == "1.0.10" || strs[i] == "1.0.2" {
 			sel = append(sel, i)
